@@ -62,6 +62,26 @@ def tree_hash():
     return h.hexdigest()[:20]
 
 
+def ext_hash():
+    """hash of everything the compiled extension modules depend on (a change to a .py module of the package
+    does not require recompiling: the built .so files are reused)"""
+    h = hashlib.sha256()
+    for p in _source_files():
+        if p.suffix == ".py" and p.name != "setup.py":
+            continue
+        if "jinja" in p.parts:
+            continue
+        h.update(str(p.relative_to(REPO)).encode())
+        h.update(b"\0")
+        h.update(p.read_bytes())
+        h.update(b"\0")
+    return h.hexdigest()[:20]
+
+
+def _ext_cache(variant):
+    return CACHE / "_ext" / ("%s-%s" % (ext_hash(), variant))
+
+
 def _stage(dst):
     for p in _source_files():
         rel = p.relative_to(REPO)
@@ -73,7 +93,7 @@ def _stage(dst):
 def _evict(keep):
     if not CACHE.is_dir():
         return
-    trees = [d for d in CACHE.iterdir() if d.is_dir() and d.name != keep]
+    trees = [d for d in CACHE.iterdir() if d.is_dir() and d.name != keep and not d.name.startswith("_")]
     trees.sort(key=lambda d: d.stat().st_mtime)
     while len(trees) >= MAX_TREES:
         victim = trees.pop(0)
@@ -131,12 +151,33 @@ def ensure(variant="plain"):
             tree.mkdir(parents=True)
             _stage(tree)
             t0 = time.time()
-            try:
-                _build_ext(tree, variant, tree / "build.log")
-            except Exception:
-                shutil.rmtree(tree, ignore_errors=True)
-                raise
-            shutil.rmtree(tree / "build", ignore_errors=True)
+            ec = _ext_cache(variant)
+            if (ec / ".complete").exists() and os.environ.get("VERIF_NO_CACHE") != "1":
+                for so in ec.glob("*.so"):
+                    shutil.copy2(so, tree / "src/dtaidistance" / so.name)
+                (tree / "build.log").write_text("extension modules reused from %s (C/Cython sources unchanged)\n" % ec)
+            else:
+                try:
+                    _build_ext(tree, variant, tree / "build.log")
+                except Exception:
+                    shutil.rmtree(tree, ignore_errors=True)
+                    raise
+                shutil.rmtree(tree / "build", ignore_errors=True)
+                try:
+                    old = sorted((CACHE / "_ext").glob("*"), key=lambda d: d.stat().st_mtime) if (CACHE / "_ext").is_dir() else []
+                    for victim in old[:-5]:
+                        shutil.rmtree(victim, ignore_errors=True)
+                    tmp = ec.with_name(ec.name + ".tmp%d" % os.getpid())
+                    tmp.mkdir(parents=True, exist_ok=True)
+                    for so in (tree / "src/dtaidistance").glob("*.so"):
+                        shutil.copy2(so, tmp / so.name)
+                    (tmp / ".complete").write_text("ok")
+                    if ec.exists():
+                        shutil.rmtree(tmp, ignore_errors=True)
+                    else:
+                        tmp.rename(ec)
+                except OSError:
+                    pass
             ok.write_text("%.1f" % (time.time() - t0))
         os.utime(root, None)
     return tree
